@@ -32,7 +32,7 @@ class Ctx(object):
         self.report = Report(prop, tier, seed)
         self.driver = None
         self.searching = False
-        self.budget = 1.0   # multiplier for case counts (search raises it)
+        self.budget = float(os.environ.get("VERIF_BUDGET", "1"))   # multiplier for case counts (search raises it; VERIF_BUDGET for soak runs)
 
     def new_driver(self):
         return common.Driver()
@@ -84,7 +84,7 @@ def main(argv):
         changed_fns = []
     if changed_fns:
         # search guidance only: the source differs from the tree the model was written against -> look harder
-        ctx.budget = 3.0
+        ctx.budget = max(ctx.budget, 3.0)
         ctx.report.notes.append("modelled functions that differ from the recorded fingerprints (budget x3): %s" % ", ".join(changed_fns[:12]))
     try:
         with common.BuildLock():
